@@ -215,3 +215,47 @@ def spec_pipeline(pred, ref, input_type, backend_eff, matcher, decision, metrics
         for m in metrics:
             lists[m].append(vals[m])
     return {"n_pred": n_pred, "n_ref": n_ref, "tp": tp, "fp": n_pred - tp, "fn": n_ref - tp, "lists": lists}
+
+
+
+def near_tie_scene(rng, target=(0.22, 0.3)):
+    """1-D scene: one prediction run overlapping two reference runs A and B whose IoUs are *adjacent fractions*
+    ia/uA and ib/uB with |ia/uA - ib/uB| = 1/(uA*uB) < 3e-7 (unions of 1800-6000 voxels). Returns (pred, ref_labels_AB)
+    as arrays builder: (pred, ref_with(la, lb)), plus which of A/B has the larger IoU."""
+    from math import gcd
+    for _ in range(2000):
+        uA = rng.randint(1800, 2600)
+        ia = rng.randint(int(target[0] * uA), int(target[1] * uA))
+        if gcd(ia, uA) != 1:
+            continue
+        # solve ia*q - uA*pp = 1  (pp/q is the left neighbour of ia/uA in the Farey sequence)
+        q = pow(ia, -1, uA)            # ia*q = 1 (mod uA), 0 < q < uA
+        pp = (ia * q - 1) // uA
+        k = rng.choice([1, 1, 2])
+        ib, uB = k * ia + pp, k * uA + q
+        if not (0 < ib < uB) or uB > 6500:
+            continue
+        # geometry: prediction run of length p; A overlaps its left end by ia, B its right end by ib
+        lo = max(ia + ib, 1)
+        hi = min(uA, uB)
+        if lo > hi:
+            continue
+        p = rng.randint(lo, hi)
+        a_len, b_len = uA - p + ia, uB - p + ib
+        if a_len < ia or b_len < ib:
+            continue
+        L = (a_len - ia) + p + (b_len - ib) + 4
+        s0 = 2
+
+        def build(la, lb):
+            ref = np.zeros(L, np.uint16)
+            pred = np.zeros(L, np.uint16)
+            ref[s0:s0 + a_len] = la
+            ps = s0 + a_len - ia
+            pred[ps:ps + p] = 7
+            ref[ps + p - ib:ps + p - ib + b_len] = lb
+            return pred.reshape(1, L), ref.reshape(1, L)
+        fa, fb = Fraction(ia, uA), Fraction(ib, uB)
+        assert fa != fb and abs(fa - fb) < Fraction(1, 3_000_000)
+        return build, ("A" if fa > fb else "B"), float(abs(fa - fb))
+    return None
